@@ -52,6 +52,7 @@ type world struct {
 	out  *hx.Out
 	rng  *rand.Rand
 	mode string // "c13" | "c07"
+	confN    int
 	govReady bool // gov parameters for oracle-list proposals written (govblock_test.go)
 	// oracles the oracle-list proposal executed by the gov end-blocker of the NEXT block takes offline (not a slash)
 	inBlockRemoved map[string]bool
@@ -814,7 +815,18 @@ func (w *world) opConf(kd string, n uint64, e, b int, good bool) {
 		}
 		msg = &types.MsgBridgeCallConfirm{Nonce: n, BridgerAddress: w.bridgers[b].String(), ExternalAddress: w.extAddr[e], Signature: w.sign(e, cp, good), ChainName: w.chain}
 	}
-	res := kind(w.tx(func(ctx sdk.Context) error { return w.k.ConfirmHandler(ctx, msg) }), errTable, "other")
+	// every second confirm goes through the application's message router (the registered crosschain Msg service picks the
+	// chain's keeper by msg.ChainName and calls its msg server), the others through the keeper entry point
+	w.confN++
+	via := "keeper"
+	var res string
+	if hd := w.s.App.MsgServiceRouter().Handler(msg.(sdk.Msg)); w.confN%2 == 0 && hd != nil {
+		via = "router"
+		res = kind(w.tx(func(ctx sdk.Context) error { _, err := hd(ctx, msg.(sdk.Msg)); return err }), errTable, "other")
+	} else {
+		res = kind(w.tx(func(ctx sdk.Context) error { return w.k.ConfirmHandler(ctx, msg) }), errTable, "other")
+	}
+	w.out.Count("conf-via:" + via)
 	w.out.Count("conf-" + kd + ":" + res)
 	w.out.Nontrivial("conf-" + kd + ":" + res)
 	g := 0
